@@ -153,7 +153,10 @@ func NewLocalSuperior() *LocalSuperior {
 
 func (ls *LocalSuperior) Subscribe(ctx context.Context, c Collector) {
 	ls.baseSuperior.Subscribe(ctx, c)
-	if task := ls.latestTask; task != nil {
+	ls.taskCacheLock.Lock()
+	task := ls.latestTask
+	ls.taskCacheLock.Unlock()
+	if task != nil {
 		ls.Send(ctx, c.ID(), task)
 	}
 }
@@ -162,10 +165,12 @@ func (ls *LocalSuperior) AddTask(ctx context.Context, collectorID uuid.UUID, req
 	ch := make(chan *CollectorMsg, 10)
 	ls.taskCacheLock.Lock()
 	ls.taskCache.Add(req.ID(), ch)
+	if collectorID == uuid.Nil {
+		ls.latestTask = req
+	}
 	ls.taskCacheLock.Unlock()
 
 	if collectorID == uuid.Nil {
-		ls.latestTask = req
 		ls.Broadcast(ctx, req)
 	} else {
 		ls.Send(ctx, collectorID, req)
@@ -227,15 +232,16 @@ func (ls *LocalSuperior) onTypeMsg(ctx context.Context, cid uuid.UUID, resp prot
 
 type RemoteSuperior struct {
 	*baseSuperior
-	wg           sync.WaitGroup
-	ctx          context.Context
-	ctxCanceller context.CancelFunc
-	stopping     int32 // atomic
-	stopped      int32 // atomic
-	afterStopped func()
-	reader       MessageReader
-	writer       ReportWriter
-	latestTask   protocol.Message // latest request_qualities job
+	wg             sync.WaitGroup
+	ctx            context.Context
+	ctxCanceller   context.CancelFunc
+	stopping       int32 // atomic
+	stopped        int32 // atomic
+	afterStopped   func()
+	reader         MessageReader
+	writer         ReportWriter
+	latestTaskLock sync.Mutex
+	latestTask     protocol.Message // latest request_qualities job, guarded by latestTaskLock
 }
 
 func NewRemoteSuperior(ctx context.Context, reader MessageReader, writer ReportWriter, afterStopped func()) (*RemoteSuperior, context.CancelFunc) {
@@ -258,7 +264,10 @@ func NewRemoteSuperior(ctx context.Context, reader MessageReader, writer ReportW
 
 func (rs *RemoteSuperior) Subscribe(ctx context.Context, c Collector) {
 	rs.baseSuperior.Subscribe(ctx, c)
-	if task := rs.latestTask; task != nil {
+	rs.latestTaskLock.Lock()
+	task := rs.latestTask
+	rs.latestTaskLock.Unlock()
+	if task != nil {
 		rs.Send(ctx, c.ID(), task)
 	}
 }
@@ -325,7 +334,9 @@ process:
 			break process
 		}
 		if msg.MsgType() == protocol.MsgTypeRequestQualities {
+			rs.latestTaskLock.Lock()
 			rs.latestTask = msg
+			rs.latestTaskLock.Unlock()
 		}
 		rs.Broadcast(rs.ctx, msg)
 	}
